@@ -202,7 +202,8 @@ func Sparse6Decode(s string) (*SparseGraph, error) {
 		}
 		if x > v {
 			v = x
-		} else {
+		} else if uint64(v) < n {
+			//Anything which refers to a vertex which isn't in the graph (e.g. the padding) is ignored.
 			g.AddEdge(v, x)
 		}
 	}
